@@ -387,22 +387,22 @@ def run(ctx, res):
                 "while a fresh reader held a dataset; distinct = distinct (capacity, op list)")
     streams = [("corpus", c, o) for c, o in corpus()]
     rng = ctx.sub_rng("readers")
-    for _ in range(ctx.n(600, 12000)):
+    for _ in range(ctx.n(500, 12000)):
         streams.append(("readers",) + reader_history(rng))
     rng = ctx.sub_rng("pressure")
-    for _ in range(ctx.n(600, 12000)):
+    for _ in range(ctx.n(500, 12000)):
         streams.append(("pressure",) + S.pressure_history(rng))
     rng = ctx.sub_rng("random")
-    for _ in range(ctx.n(300, 7000)):
+    for _ in range(ctx.n(250, 7000)):
         streams.append(("random",) + S.gen_history(rng))
     rng = ctx.sub_rng("malformed")
-    for _ in range(ctx.n(120, 2500)):
+    for _ in range(ctx.n(100, 2500)):
         streams.append(("malformed",) + S.gen_history(rng, malformed=True))
     rng = ctx.sub_rng("rewrite")
-    for _ in range(ctx.n(300, 6000)):
+    for _ in range(ctx.n(250, 6000)):
         streams.append(("rewrite",) + S.rewrite_history(rng))
     rng = ctx.sub_rng("midpurge")
-    for _ in range(ctx.n(200, 4000)):
+    for _ in range(ctx.n(150, 4000)):
         streams.append(("midpurge",) + S.midpurge_history(rng))
     terms, metas = [], []
     erng = ctx.sub_rng("epilogue")
